@@ -50,6 +50,9 @@ def side_of(text):
     return None
 
 
+TRUTHY_TESTS = []
+
+
 def leaf_blocks(stmts, facts, fn, out):
     """Enumerate straight-line leaf blocks of nested if/elif/else with the membership facts known there."""
     plain = []
@@ -62,6 +65,15 @@ def leaf_blocks(stmts, facts, fn, out):
                 m = membership_side(node, fn)
                 if m:
                     pos[m[0]] = (m[1] == pol)
+                elif isinstance(node, ast.Name):
+                    # truth-value test of a looked-up class id: truthy implies "shared"; falsy implies nothing (id 0 is falsy)
+                    defs = [d for d in own_nodes(fn) if isinstance(d, ast.Assign) and src(d.targets[0]) == node.id]
+                    if defs and all('shared_per_patch' in src(d.value) and '.get(' in src(d.value) for d in defs):
+                        side = side_of(src(defs[0].value))
+                        if side:
+                            TRUTHY_TESTS.append((node, side, s))
+                            if pol:
+                                pos[side] = True
             for (_t, pol, node) in lits_f:
                 m = membership_side(node, fn)
                 if m:
@@ -84,8 +96,24 @@ def r14_1(ctx):
         raise AnchorMissing('R14.1: pair loop of join_dofs')
     loop = loops[0]
     blocks = []
+    del TRUTHY_TESTS[:]
     # statements before the if-chain in the loop body define sd1/sd2; the chain itself:
     leaf_blocks([s for s in loop.body if isinstance(s, ast.If)], {}, fi.node, blocks)
+    # class ids are positions in the list self.shared_dofs (first id 0): membership must be tested with `is not None`
+    mpcls = ctx.prog.cls(MP)
+    ids_from_len = any(isinstance(x, ast.Call) and call_name(x) == 'len' and x.args and src(x.args[0]) == 'self.shared_dofs'
+                       for x in ast.walk(mpcls.node)) and \
+        any(isinstance(x, ast.Call) and call_name(x) == 'self.shared_dofs.append' for x in ast.walk(mpcls.node))
+    seen = set()
+    for node, side, iff in TRUTHY_TESTS:
+        if id(node) in seen:
+            continue
+        seen.add(id(node))
+        ctx.decide('R14.1', fi.qual, 'membership of side %s tested by the truth value of the class id `%s`' % (side, node.id),
+                   False if ids_from_len else None, node,
+                   'class ids are indices into self.shared_dofs starting at 0, so class 0 is falsy: a pair whose one side belongs to class 0 and '
+                   'whose other side belongs to another class is not merged but handled as an extension -- one member is moved, the rest of '
+                   'its class still points to the old id', definite=True)
     ctx.floor('R14.1', 'branches of the union step', len(blocks), 3)
     cases = {(True, True): [], (True, False): [], (False, True): [], (False, False): []}
     for stmts, facts, node in blocks:
